@@ -166,7 +166,7 @@ def run_program(acc, space, hier_spec, classes, mspecs, sig_names, sigma, depth,
 
 
 def replay(case):
-    if case["space"].startswith(("d", "D")):
+    if case["space"].startswith(("d", "D", "k:")):
         from . import c04_dep
 
         return c04_dep.replay(case)
